@@ -40,6 +40,9 @@ CHECKS.update({
                "Trusted: virttest's Cartesian parser for the unrestricted universe; mini-suite with the shipped sets/groups/nets/vms configs."),
     "C13": e2("Every cell of owner (lxc worker, remote cluster worker) x pool_scope subset x ordered source list (length <=3, thorough 4) over 7 source kinds incl. a foreign gateway re-using the owner's host name x placement of the state among sources and cache x cache validity x show/get/set/unset on the real SourcedStateBackend with a recording transport, against reference scope/closeness functions written from the statement; plus root cells (pool_scope x local/pool root x validity x object type) on RootSourcedStateBackend.",
                "_show/_get/_set/_unset and the transport are recording stubs (the attributes the selftests substitute); the qcow2 chain transfer itself is not exercised."),
+    "C14": ("procmc", "preemption-bounded stateless model checking of simulated processes around image_lock with a kernel-validated POSIX lock model; exhaustive sequential pre-state cells",
+            "All schedules with <=2 (thorough 3) preemptions of every pair (thorough also triples) of {upload A, upload B, download, delete, download_link} running the real TransferOps on one pool path from each pool pre-state, a three-process set with a deleter at bound 3, plus a crash or an injected OSError at every scheduling point of every process; oracle: operations of different processes on the pool file never overlap, nobody touches it without holding the lock, a timed-out waiter does nothing, the final content is a whole version, no lock survives. Sequentially: all 6 cache states x 3 pool states x 6 operations (source unchanged, destination identical, skip when equal, link mode never replaces data nor uploads a link).",
+            "Simulated processes share an interpreter; the lock model (per inode, released by unlock/any close/exit) is replayed against the real kernel with two real processes for all operation sequences up to depth 4 (5). Remote transfers are not exercised.", "§2.3, §4 C14"),
     "C16": e2("All sets of <=3 (thorough 4) parser-shaped names, all insertion orders, all dotted queries of <=3 variants over the alphabet through PrefixTree.get/__contains__ and TestGraph.get_nodes_by_name vs a naive contiguous-subsequence scan; BFS over drop/pick register sequences (depth 3 / 5) on the real bridged nodes of a parsed two-worker graph vs a dict-of-counters model, every counter/worker query compared on every copy.",
                "Names restricted as the statement says (set variant first, no repeated variant); alphabet of 2 set variants and 3-4 inner variants."),
     "C18": e2("BFS over reattach/allocate sequences (depth 3 / 4) replayed on freshly built real VMNetwork objects for 4-5 topologies (1-4 vms, 2-3 nics, prefixes /16../30, shared and separate subnets) with an ipaddress-based invariant after every successful operation; every address of each range handed out once then exhaustion; all 33 prefix lengths both ways; translation for all host offsets of small subnets and boundary offsets of large ones.",
